@@ -6,6 +6,7 @@ import Zed.Proofs.ZsonRoundtrip3
 import Zed.Proofs.ZsonJson
 import Zed.Proofs.ZsonNamedTop
 import Zed.Proofs.ZsonStream
+import Zed.Proofs.ZsonNested
 /-!
   C02 — ZSON text round trip is the identity; JSON is a subset.
 
@@ -290,6 +291,41 @@ theorem zson_roundtrip_stream_partial (reset perm : Bool) (persist : Name → Bo
       (fmtStream reset { typedefs := [], permanent := if perm then some [] else none, persist := persist } items) =
       .ok items :=
   stream_roundtrip reset items hcons items (fun _ h => h) hok _ a0 (coupled_init items persist perm a0)
+
+/-- **named types inside values**: a stream of values that are plain, or records / arrays / sets
+    (neither null nor empty) whose fields and elements are plain values or values of named types
+    over plain types (`spineOK`, against a binding table `b`: one name, one type over the whole
+    stream) round-trips value by value — the first occurrence of a name *inside* a value is
+    written `v (=n)` / `v (n=type)` and enters both tables, every later occurrence in the same
+    value or in a later value of the scope is written `v (n)` — for the per-value scope, the
+    per-stream scope and every `persist` predicate.  Same coupling invariant as above, now
+    threaded through the fields and elements of each value. -/
+theorem zson_roundtrip_stream_nested_partial (reset perm : Bool) (persist : Name → Bool)
+    (b : List (Name × Ty)) (items : List (Ty × Val)) (hok : ∀ x ∈ items, itemOKB b x = true) (a0 : AState) :
+    analyzeStream a0
+      (fmtStream reset { typedefs := [], permanent := if perm then some [] else none, persist := persist } items) =
+      .ok items :=
+  stream_roundtrip_nested reset b items hok _ a0 (coupledB_init b persist perm a0)
+
+/-- … in particular one value with nested named types, written by a fresh formatter. -/
+theorem zson_roundtrip_value_nested_partial (b : List (Name × Ty)) (t : Ty) (v : Val)
+    (hok : spineOK b t v = true) (hb : bareEmpty v = false) (a0 : AState) :
+    ∃ a1, analyzeTop a0 (fmtTop {} t v).2 = .ok (a1, (t, v)) := by
+  obtain ⟨_, a1, _, h, _⟩ := spine_step b {} a0 t v (coupledB_init b (fun _ => false) false a0) hok hb
+  exact ⟨a1, h⟩
+
+-- non-vacuity: `[{a:1(int32)}(=x), {a:2}(x)]` inside a record, then the name again in the next value
+example :
+    let x : Ty := .named [120] (.record (.cons [97] (.prim 8) .nil))
+    let b : List (Name × Ty) := [([120], x)]
+    let t : Ty := .record (.cons [112] (.array x) (.cons [113] x (.cons [114] (.prim 25) .nil)))
+    let r (s : List UInt8) : Val := .named (.record (.cons (.prim s) .nil))
+    let v : Val := .record (.cons (.array (.cons (r [49]) (.cons (r [50]) .nil))) (.cons (r [51]) (.cons (.prim [107]) .nil)))
+    let items : List (Ty × Val) := [(t, v), (x, r [52])]
+    (∀ y ∈ items, itemOKB b y = true) ∧
+      analyzeStream {} (fmtStream false {} items) = .ok items ∧
+      analyzeStream {} (fmtStream true {} items) = .ok items := by
+  decide
 
 -- non-vacuity, and the theorem's conclusion re-computed on a stream with a repeated name
 example :
